@@ -49,7 +49,10 @@ Relayed(c) == IF Failed(c) THEN {}
               ELSE {FKey(i, c.lines[i]) : i \in {j \in DOMAIN c.lines :
                        c.lines[j].k \in {"finding", "loc"} /\ Enabled(c.enable, c.lines[j].sev)
                        /\ ~(c.suppress /\ j = 1)}}               \* the suppression names the id of line 1
-NSummaries(c) == IF Failed(c) THEN 0 ELSE Cardinality({i \in DOMAIN c.lines : c.lines[i].k = "summary"})
+\* the case is played for the first translation unit; the second one prints the same summary lines (byte-identical) and
+\* never fails: every summary of every translation unit is forwarded, identical ones included
+SumLines(c) == Cardinality({i \in DOMAIN c.lines : c.lines[i].k = "summary"})
+NSummaries(c) == SumLines(c) + (IF Failed(c) THEN 0 ELSE SumLines(c))
 
 \* how the implementation must classify the lines (hook AddonLine): every JSON object line is "json"; reading stops
 \* at the first text line
